@@ -349,3 +349,42 @@ def r_only_deduplication_merges_rows(ctx: Ctx, rule: str) -> None:
             run.ok(rule, inst)
     if n == 0:
         raise AnalysisError("execute() has no paths")
+
+
+def r_to_mapping_shortcut(ctx: Ctx, rule: str) -> None:
+    """Rows unique on (a, b) are not unique on (a): a mapping is its own answer only for exactly its own key."""
+    import ast as _ast
+
+    from ..facts import path_facts
+    from ..props.common import IT_ROWS, describe
+
+    run, m = ctx.run, ctx.m
+    run.rule(
+        rule,
+        "RowMapping.to_mapping returns the mapping itself only when the requested key *equals* its own key; for any other "
+        "key (a subset, a permutation) the rows are re-keyed: rows that are distinct under the mapping's key can coincide "
+        "under a smaller one, and a Deduplication executed on such a payload must merge them",
+        expected_min=1,
+    )
+    c = m.module(IT_ROWS).classes.get("RowMapping")
+    f = c.methods.get("to_mapping") if c is not None else None
+    if f is None:
+        raise AnalysisError("RowMapping.to_mapping is missing")
+    kp = [q for q in f.params if q != "self"][0]
+    n = 0
+    for i, p in enumerate(ctx.paths(f)):
+        if p.outcome != "return":
+            continue
+        n += 1
+        inst = f"RowMapping.to_mapping:path{i}"
+        if src(p.value) != "self":
+            run.ok(rule, inst)
+            continue
+        facts = path_facts(p)
+        eq = any(fc.kind == "EQ" and fc.polarity and set(fc.args) in ({kp, "self.unique_key"}, {f"tuple({kp})", "self.unique_key"}, {f"tuple({kp})", "tuple(self.unique_key)"}) for fc in facts)
+        if eq:
+            run.ok(rule, inst)
+        else:
+            run.fail(rule, inst, f"the mapping is returned as it is on a path that has not established `{kp} == self.unique_key`: for a smaller or different key its rows are not unique, and they are handed on as if they were", fi=f, node=p.node, details=describe(p))
+    if n == 0:
+        raise AnalysisError("RowMapping.to_mapping never returns")
